@@ -157,6 +157,16 @@ def inner_app(iface: str, recipe: str, sym: Dict[str, Any], counter: List[int]):
                 raise KeyError("inner app failed")
                 yield b""
             return app
+        if recipe in ("list1", "list2", "emptylist", "tuple1"):
+            # the most common plain-WSGI style: return a list / tuple of byte strings (not a generator)
+            def app(environ, start_response):
+                counter[0] += 1
+                body = sym.get("body", b"hello")
+                chunks = {"list1": [body], "list2": [body, b"-second"], "emptylist": [], "tuple1": (body,)}[recipe]
+                total = sum(len(c) for c in chunks)
+                start_response("200 OK", [("content-type", "text/plain"), ("content-length", str(total)), ("x-a", hv)])
+                return chunks
+            return app
 
         def app(environ, start_response):
             counter[0] += 1
@@ -167,8 +177,10 @@ def inner_app(iface: str, recipe: str, sym: Dict[str, Any], counter: List[int]):
             counter[0] += 1
             raise KeyError("inner app failed")
         return app
-    if recipe == "restart":
+    if recipe in ("restart", "list1", "list2", "tuple1"):
         recipe = "plain"
+    if recipe == "emptylist":
+        recipe = "empty"
 
     async def app(scope, receive, send):
         counter[0] += 1
@@ -385,7 +397,7 @@ def jobs(tier: str):
     b = META["bounds"][tier]
     out = []
     for iface in ("wsgi", "asgi"):
-        for recipe in ("plain", "empty", "json", "redirect", "cookie1", "cookie2", "stream", "restart", "raises"):
+        for recipe in ("plain", "empty", "json", "redirect", "cookie1", "cookie2", "stream", "restart", "raises") + (("list1", "list2", "emptylist", "tuple1") if iface == "wsgi" else ()):
             for depth in range(1, b["depth_max"] + 1):
                 what = "header" if recipe not in ("cookie1", "cookie2") else "cookie"
                 out.append(dict(name=f"{iface}/{recipe}/identity{depth}/{what}", iface=iface, recipe=recipe, depth=depth, kind="identity", what=what, n=1))
@@ -394,6 +406,8 @@ def jobs(tier: str):
         for n in range(0, b["text_chars"] + 1):
             out.append(dict(name=f"{iface}/plain/identity1/body{n}", iface=iface, recipe="plain", depth=1, kind="identity", what="body", n=n))
             out.append(dict(name=f"{iface}/stream/identity2/body{n}", iface=iface, recipe="stream", depth=2, kind="identity", what="body", n=n))
+            if iface == "wsgi":
+                out.append(dict(name=f"{iface}/list2/identity1/body{n}", iface=iface, recipe="list2", depth=1, kind="identity", what="body", n=n))
         for size in b["sizes"]:
             for depth in (1, b["depth_max"]):
                 out.append(dict(name=f"{iface}/plain/identity{depth}/size{size}", iface=iface, recipe="plain", depth=depth, kind="identity", what="size", size=size, weight=50))
